@@ -28,7 +28,7 @@ from wormhole.eventual import EventualQueue  # noqa: E402
 
 log.startLoggingWithObserver(lambda ev: None, setStdout=False)
 OBS_NAMES = ["AllPausedWhenPaused", "NoConnMeansPaused", "NoResumeWhilePaused", "AllResumedAfterDrain", "ThreeSets", "InboundExact",
-             "PullObeys", "NoInternal", "InboundReal"]
+             "PullObeys", "NoInternal", "InboundReal", "FollowsTransport"]
 
 
 @implementer(IPushProducer)
@@ -84,6 +84,7 @@ class FakeConn:
             # the transport's buffer fills with this record: it tells its producer (the Outbound) to stop, from inside
             # send_record() as Twisted does from inside write()
             if w.send_script.pop(0):
+                w.last_signal = "pause"
                 w.outbound.pauseProducing()
 
     world = None
@@ -122,8 +123,10 @@ class FlowWorld:
         ob, ib = self.outbound, self.inbound
         try:
             if name == "TransportPause":
+                self.last_signal = "pause"
                 ob.pauseProducing()
             elif name == "TransportResume":
+                self.last_signal = "resume"
                 ob.resumeProducing()
             elif name == "Register":
                 ob.subchannel_registerProducer(self.sc[arg], self.prod[arg], True)
@@ -136,9 +139,11 @@ class FlowWorld:
             elif name == "UseConnection":
                 self.conn = FakeConn()
                 self.conn.world = self
+                self.last_signal = "resume"         # a fresh transport is writable
                 ib.use_connection(self.conn)
                 ob.use_connection(self.conn)
             elif name == "StopUsingConnection":
+                self.last_signal = "none"
                 ib.stop_using_connection()
                 ob.stop_using_connection()
                 self.conn = None
@@ -170,7 +175,11 @@ class FlowWorld:
                 "ipaused": sorted(scident.get(id(s), "?") for s in self.inbound._paused_subchannels),
                 "cpaused": bool(self.conn.paused) if self.conn else False,
                 "wantPause": sorted(self.want_pause), "open": sorted(self.open),
-                "queued": len(ob._outbound_queue), "unsent": len(ob._queued_unsent)}
+                "queued": len(ob._outbound_queue), "unsent": len(ob._queued_unsent),
+                # ground truth kept by the harness: the last thing the transport of the connection in use told the Outbound
+                "lastSignal": self.last_signal if self.conn is not None else "none"}
+
+    last_signal = "none"
 
 
 def spec_projection(st):
@@ -268,7 +277,7 @@ def replay_behaviour(tid, states, producers):
             w.send_script = []
         pr, ps = w.projection(), spec_projection(states[j])
         w.checkpoints.append(pr)
-        if drift is None and pr != ps:
+        if drift is None and any(ps[k] != pr[k] for k in ps):
             d = ["%s: spec=%s real=%s" % (k, ps[k], pr[k]) for k in ps if ps[k] != pr[k]]
             drift = {"step": j, "action": list(states[j]["last"]), "diff": d[:5]}
         i = j + 1
@@ -286,6 +295,7 @@ FLOW_T_PROJ = ("[paused |-> paused, conn |-> conn, deque |-> deque, pset |-> %s,
 
 def walk_projection(w):
     pr = w.projection()
+    pr.pop("lastSignal", None)
     for k in ("pset", "uset", "ipaused", "wantPause", "open"):
         pr[k] = {p: (p in pr[k]) for p in w.pids}
     return pr
@@ -325,6 +335,7 @@ class WalkConn(FakeConn):
         full = w.steps < w.max_steps and w.rng.random() < 0.3
         if full:
             w.steps += 1
+            w.last_signal = "pause"
             w.outbound.pauseProducing()
         w.emit(["LoopSend", "full" if full else "-"])
 
@@ -389,6 +400,7 @@ class WalkWorld(FlowWorld):
                 if name == "UseConnection":
                     self.conn = WalkConn()
                     self.conn.world = self
+                    self.last_signal = "resume"
                     try:
                         self.inbound.use_connection(self.conn)
                         ob.use_connection(self.conn)
